@@ -9,7 +9,7 @@ git -C /repo apply $PATCH || exit 3
 mkdir -p work/seedlogs
 out=""
 for p in $PROPS; do
-  ./check $p --tier quick > work/seedlogs/$p.log 2>&1; rc=$?
+  ./check $p --tier quick $CHECK_ARGS > work/seedlogs/$p.log 2>&1; rc=$?
   [ $rc -eq 1 ] && out="$out $p"
   [ $rc -eq 2 ] && out="$out $p?"
 done
